@@ -130,4 +130,27 @@ def readLines : RSt → List Str → Option (List (List Str))
 
 def readAll (text : Str) : Option (List (List Str)) := readLines {} (splitLines [] text)
 
+/-! ## `csv.DictReader` (how every tool reads the database) -/
+
+/-- one record as `DictReader` yields it: the values by field name (`none` ≙ `None`: the row was
+shorter than the header), and the surplus fields of a row longer than the header (stored under
+the key `None`) -/
+structure DictRow where
+  vals  : List (Str × Option Str)
+  extra : List Str
+  deriving DecidableEq, Repr
+
+def zipPad : List Str → List Str → List (Str × Option Str)
+  | [], _ => []
+  | h :: hs, [] => (h, none) :: zipPad hs []
+  | h :: hs, v :: vs => (h, some v) :: zipPad hs vs
+
+/-- the first row read is the list of field names; blank rows (`[]`) after it are skipped -/
+def dictRows : List (List Str) → List DictRow
+  | [] => []
+  | hdr :: rest => (rest.filter (fun r => !r.isEmpty)).map
+      (fun r => { vals := zipPad hdr r, extra := r.drop hdr.length })
+
+def dictRead (text : Str) : Option (List DictRow) := (readAll text).map dictRows
+
 end Pff.Csv
